@@ -230,12 +230,18 @@ func runC07(ctx *core.Ctx) {
 		terr := ssax.Extracted(tcall, 1)
 		isOld := func(v ssa.Value) bool { return v == old || ssax.ResolveLoad(v) == old }
 		lenOld := func(v ssa.Value) bool {
-			for {
-				cv, ok := v.(*ssa.Convert)
-				if !ok {
-					break
+			// through conversions and through a local that holds the length (oldSize := int64(len(old)),
+			// a memory cell once a closure captures it)
+			for k := 0; k < 6; k++ {
+				if cv, ok := v.(*ssa.Convert); ok {
+					v = cv.X
+					continue
 				}
-				v = cv.X
+				if r := ssax.ResolveLoad(v); r != nil && r != v {
+					v = r
+					continue
+				}
+				break
 			}
 			c, ok := v.(*ssa.Call)
 			if !ok {
@@ -245,12 +251,16 @@ func runC07(ctx *core.Ctx) {
 			return ok && b.Name() == "len" && isOld(c.Call.Args[0])
 		}
 		lenNew := func(v ssa.Value) bool {
-			for {
-				cv, ok := v.(*ssa.Convert)
-				if !ok {
-					break
+			for k := 0; k < 6; k++ {
+				if cv, ok := v.(*ssa.Convert); ok {
+					v = cv.X
+					continue
 				}
-				v = cv.X
+				if r := ssax.ResolveLoad(v); r != nil && r != v {
+					v = r
+					continue
+				}
+				break
 			}
 			return isLenOf(newV)(v)
 		}
